@@ -289,6 +289,8 @@ def _run_vc(args):
             # a must-fail twin passes its guard when it is NOT discharged: refuted (sat) or, under quantified hypotheses where no
             # model can be built, left open (unknown). Contradictory hypotheses would discharge it (unsat) like everything else.
             out["guards"].append({"name": "twin:%s" % tname, "ok": r.status != "unsat", "status": r.status})
+    except ip.Unsupported as e:  # raised while a postcondition evaluated a (lazy) tensor element: outside the modelled subset
+        out["unsupported"] = str(e)
     except Exception:
         out["error"] = traceback.format_exc(limit=8)
     out["wall_ms"] = round((time.time() - t0) * 1000)
